@@ -288,7 +288,7 @@ Section Collector.
             apply (Permutation_in _ PM) in Hx. destruct Hx as [<-|Hx].
             - destruct Hbefore as [Hb|(y & Ny & Hy)]; [apply nth_error_None in Hb; congruence|].
               congruence.
-            - eapply (Ap ssorted_firstn_lt_skipn); eauto. apply nth_error_in_skipn. exact Nl. }
+            - apply ((Ap ssorted_firstn_lt_skipn) K L x l SL Hx). apply nth_error_in_skipn. exact Nl. }
           unfold TopNSorted.lt in Hxl. replace (cmp x l <? 0) with true by (symmetry; apply Z.ltb_lt; exact Hxl).
           reflexivity.
   Qed.
@@ -327,7 +327,7 @@ Section Collector.
   Lemma number_from_hits n l : map hit (number_from n l) = map (fun i => n + 1 + Z.of_nat i) (seq 0 (length l)).
   Proof.
     revert n; induction l as [|m l IH]; intros n; [reflexivity|].
-    cbn [number_from map length seq]. f_equal; [lia|].
+    cbn [number_from map length seq hit]. f_equal; [lia|].
     rewrite IH. rewrite <- seq_shift, map_map. apply map_ext. intros i. lia.
   Qed.
 
@@ -385,11 +385,12 @@ Section Collector.
         Some (firstn size (skipn skip (sort (filter (passes sa) (numbered ms))))) /\
       st_total st = Z.of_nat (length ms) /\ st_max st = spec_max_score ms.
   Proof.
-    intros heap.
+    intros heap. clearbody heap.
     destruct (collect_loop_inv heap (size + skip) sa ms [] init_state) as (st & E & (I & P & _) & Ht & Hm).
-    - unfold cinv. cbn. destruct (size + skip)%nat; repeat split; auto; destruct heap; cbn; auto.
-      + intros j Hj. cbn in Hj. lia.
-      + intros j Hj. cbn in Hj. lia.
+    - unfold cinv. cbn. rewrite firstn_nil. split; [|split].
+      + destruct heap; cbn; [intros j Hj; cbn in Hj; lia|exact Logic.I].
+      + constructor.
+      + destruct (size + skip)%nat; reflexivity.
     - reflexivity.
     - reflexivity.
     - cbn [app] in *. exists st. repeat split; auto.
@@ -400,11 +401,9 @@ Section Collector.
         pose proof ((Ap sort_uhits) p Up) as H. rewrite <- (firstn_skipn (size + skip) (sort p)) in H.
         eapply (Ap uhits_app_l); exact H. }
       rewrite (final_spec heap skip (st_store st) I Us). f_equal.
-      rewrite ((Ap sort_unique) (st_store st) (firstn (size + skip) (sort p))); auto.
-      + rewrite (Ap sort_sorted_id); auto.
-        * rewrite firstn_skipn_comm. f_equal. f_equal. lia.
-        * eapply (Ap uhits_perm); [exact P|exact Us].
-        * apply (Ap ssorted_firstn), (Ap sort_sorted); auto.
+      rewrite <- ((Ap sort_unique) (st_store st) (firstn (size + skip) (sort p))).
+      + rewrite firstn_skipn_comm. f_equal. f_equal. lia.
+      + exact Us.
       + apply (Ap ssorted_firstn), (Ap sort_sorted); auto.
       + apply Permutation_sym. exact P.
   Qed.
